@@ -1,12 +1,15 @@
 mod common;
 mod dev;
 mod c09;
+mod fwc;
+mod fw_c01;
 
 fn main() {
     std::panic::set_hook(Box::new(|_| {}));
     let args = common::parse_args();
     match args.stream.as_str() {
         "silencer" => c09::run(&args),
+        "fw_c01" => fw_c01::run(&args),
         s => {
             eprintln!("unknown stream {s}");
             std::process::exit(2);
